@@ -4,6 +4,7 @@ import (
 	"bytes"
 	"encoding/binary"
 	"fmt"
+	"os"
 	"runtime"
 	"strconv"
 	"strings"
@@ -123,6 +124,26 @@ type measured struct {
 
 // measureLoad runs loader + profile + description accessors on hostile bytes, measuring what
 // the call allocated and how long it took.
+// withDeadline runs f; if it does not finish within a budget that grows with the input size only,
+// the case is recorded as a C09 time violation and the harness stops (a spinning goroutine cannot
+// be cancelled): the remaining cases are skipped, the finding carries the input.
+func withDeadline(c *corrCtx, what string, data []byte, f func() measured) measured {
+	done := make(chan measured, 1)
+	go func() { done <- f() }()
+	budget := 4*time.Second + time.Duration(len(data))*40*time.Microsecond
+	select {
+	case m := <-done:
+		return m
+	case <-time.After(budget):
+		c.direct(fmt.Sprintf("C09/hang/%s/%016x", what, fnvBytes(data)), "the call did not return within a time budget that depends on the input size only (numbers written in the input drive the running time)",
+			map[string]interface{}{"what": what, "len": len(data), "budget_ms": budget.Milliseconds(), "data": hexs(trunc(data, 4000))})
+		c.extra["aborted_after_hang"] = true
+		c.finish()
+		os.Exit(0)
+	}
+	return measured{}
+}
+
 func measureLoad(name string, data []byte) measured {
 	var m0, m1 runtime.MemStats
 	runtime.ReadMemStats(&m0)
@@ -186,14 +207,15 @@ func modelCost(format string, data []byte, oracle string) (steps, alloc uint64, 
 
 func c09Case(c *corrCtx, class, format string, data []byte) {
 	n := uint64(len(data))
+	c.mark(fmt.Sprintf("hostile input class=%s format=%s len=%d hex=%s", class, format, len(data), hexs(trunc(data, 2000))))
 	if format == "icc" {
-		m := measureIcc(data)
+		m := withDeadline(c, "icc", data, func() measured { return measureIcc(data) })
 		c.emit(class+"/icc", "icc eof "+hexs(data), m.out)
 		c09Budget(c, class, "icc", data, m, 64*n+(1<<20))
 		return
 	}
 	for _, ld := range []string{format, "auto"} {
-		m := measureLoad(ld, data)
+		m := withDeadline(c, ld, data, func() measured { return measureLoad(ld, data) })
 		oracle := ""
 		if ld == "png" || ld == "auto" {
 			oracle = pngOracle(data)
@@ -318,6 +340,25 @@ func corrC09(c *corrCtx) {
 			}
 			for _, v := range vals {
 				c09Case(c, "field/"+s.format, s.format, setField(s.data, f, v))
+			}
+		}
+	}
+	// (a') pairs of neighbouring fields driven together (a count with its record size, a length with
+	// its offset, ...): the extremes always, a seeded sample of the rest
+	extremes := []uint64{0, 1, 12, 0x7fffffff, 0xfffffff0, 0xffffffff}
+	for _, s := range seeds {
+		fs := fieldsOf(s.format, s.data)
+		for i := 0; i+1 < len(fs); i++ {
+			if fs[i+1].off-fs[i].off > 16 {
+				continue
+			}
+			for _, v1 := range extremes {
+				for _, v2 := range extremes {
+					if !c.thorough() && r.intn(3) != 0 && !(v1 == 0 || v2 == 0) {
+						continue
+					}
+					c09Case(c, "pair/"+s.format, s.format, setField(setField(s.data, fs[i], v1), fs[i+1], v2))
+				}
 			}
 		}
 	}
